@@ -15,6 +15,8 @@ pub mod tempfile {
     /// the descriptor view of a temp file handle: read+write, not O_APPEND; `pos` is the
     /// number of bytes written through it so far
     pub uninterp spec fn tmp_pos(t: NamedTempFile) -> int;
+    /// std::env::temp_dir(): some directory about which nothing is known
+    pub uninterp spec fn system_temp_dir() -> PathV;
     pub open spec fn tmp_mode() -> OpenMode { OpenMode { read: true, write: true, append: false, create: true, truncate: false } }
 
     impl NamedTempFile {
@@ -40,6 +42,21 @@ pub mod tempfile {
                 old(w).healthy && old(w).fs.dirs.contains(dir.pathv()) ==> r is Ok,
         { unimplemented!() }
 
+        /// NamedTempFile::new(): like new_in(std::env::temp_dir()) — a file OUTSIDE any cache
+        #[verifier::external_body]
+        pub fn new(Tracked(w): Tracked<&mut World>) -> (r: io::Result<NamedTempFile>)
+            ensures
+                old(w).healthy == final(w).healthy, world_wf(*old(w)) ==> world_wf(*final(w)), hist_ext(*old(w), *final(w)),
+                r is Err ==> final(w).fs == old(w).fs && final(w).hist == old(w).hist,
+                r is Ok ==> {
+                    let p = r->Ok_0@;
+                    &&& parent_of(p) == system_temp_dir()
+                    &&& !exists_at(old(w).fs, p)
+                    &&& final(w).fs == (Fs { files: old(w).fs.files.insert(p, Seq::<u8>::empty()), ..old(w).fs })
+                    &&& final(w).hist == old(w).hist.push(final(w).fs)
+                    &&& tmp_pos(r->Ok_0) == 0
+                },
+        { unimplemented!() }
         /// ASSUMED: one atomic rename(2) that replaces `dest`; on failure nothing changes and
         /// the handle comes back in the error
         #[verifier::external_body]
